@@ -425,7 +425,7 @@ func TestSamplerAlgebra(t *testing.T) {
 		Property: "C09", Check: "sampler_algebra",
 		Rule: "1..9 trace IDs (mixed 128-bit, low/high half zero, all ones, all zero, boundary values of the low half), 2..7 ratios from {0,-0,tiny,2^-k,0.5,1-eps,1,negative,>1,NaN,m/2^j +-ulp,uniform}, 1..3 variants of the irrelevant parameters (name, kind, attributes, links, nil/empty/local/remote parent with flags and tracestate) and a block of 4096 hash-derived trace IDs judged at two ratios; " +
 			"non-trivial = some pair r < r' decides differently on some trace ID; distinct = distinct case encodings",
-		Quick: 3000, Thorough: 50000,
+		Quick: 1000, Thorough: 50000,
 		Gen: genAlg, Run: runAlg,
 	})
 }
